@@ -22,5 +22,8 @@ def check(ctx, run):
     safety.panic_inventory(ctx, run, 'R18.3', ['number::Number::decode'], floor=4)
     numcodec.r18_4(ctx, run)
     numcodec.r18_5(ctx, run)
+    import boundaries
+    _bf = lambda p_: p_.startswith('number::')
+    boundaries.check(ctx, run, 'R18.6', [p_ for p_ in sorted(boundaries.load_baseline() or {}) if _bf(p_)], 'a numeric view / decoder rejects a value')
     return report.finish(run, level='other', explanation=EXPLANATION,
                          assumptions=["ordered-float: OrderedFloat<f64>::cmp is a total order with NaN == NaN greatest and -0.0 == +0.0", "A3: dev profile"])
